@@ -776,4 +776,3 @@ func doRecover(caller *frame) value {
 	}
 	return iface{}
 }
-
